@@ -286,6 +286,15 @@ func (e *Exec) libModel(st *State, callee *ssa.Function, cc *ssa.CallCommon, arg
 		e.store(st, args[0], nv)
 		set(Val{T: tBool, S: ok})
 		return true, true, nil
+	case "sort.Search":
+		// binary search over [0,n): some index in [0,n]; the predicate closure is assumed to
+		// read only (true of the ring lookups that use it). Which index is not modelled.
+		used()
+		r := e.sc.fresh("search", e.sc.idx())
+		z := e.sc.idxLit(0)
+		e.assume(st, and(e.le(z, r), or(e.le(r, args[0].S), and(e.lt(args[0].S, z), eq(r, z)))))
+		set(Val{T: resT, S: r})
+		return true, true, nil
 	case "(*sync/atomic.Value).Load", "(*sync/atomic.Value).Store":
 		// sequential model of atomic.Value: the boxed value lives in the struct's field v.
 		// (Writers of the values modelled here serialise on a mutex; a reader sees one stored value.)
